@@ -103,11 +103,13 @@ Theorem key_class_in_snapshot : forall a, class_of a = Some Key ->
 Proof. exact ProofsTable.key_class_in_snapshot. Qed.
 Print Assumptions key_class_in_snapshot.
 
-(* The FULL table statement (Statement.no_stale_options) is refuted: attributes exist that change diagnostics,
-   are outside the key and are baked into the cached tuples (finding F4; each replayed on the real code by S). *)
-Theorem no_stale_options_refuted : ~ no_stale_options.
-Proof. exact ProofsTable.no_stale_options_refuted. Qed.
-Print Assumptions no_stale_options_refuted.
+(* The table half of the FULL statement (Statement.no_stale_options: no attribute is a `finding`) is decided by the
+   classification.  On the current tree no_finding_b = false (Example below): the statement is REFUTED -- attributes
+   exist that change diagnostics, are outside the key and are baked into the cached tuples (finding F4; each one is
+   replayed on the real code by S). *)
+Theorem no_stale_options_decided : if no_finding_b then no_stale_options else ~ no_stale_options.
+Proof. exact ProofsTable.no_stale_options_decided. Qed.
+Print Assumptions no_stale_options_decided.
 
 (* and in the model such an attribute does give a stale warm run, while a key attribute does not *)
 Theorem stale_outside_key_refuted :
